@@ -130,6 +130,10 @@ pub fn gen_sink(r: &mut Rng, tier: Tier, job: u64) -> Plan {
         });
     }
     fix_long_data(&mut cmds);
+    // an operation on a statement id that is not open (ends the conversation there)
+    if r.chance(1, 14) {
+        insert_dead_op(r, &mut cmds);
+    }
     let mut p = Plan::basic(cmds);
     p.handshake = gen_handshake(r);
     p.reads = gen_reads(r);
@@ -154,6 +158,7 @@ pub fn gen_sink(r: &mut Rng, tier: Tier, job: u64) -> Plan {
             cert,
             v13: r.chance(2, 3),
             seed: r.next(),
+            chain: *r.pick(&[0u8, 0, 1, 2, 3]),
         });
         p.handshake.seq = 1;
         p.writes.eintr_at.clear();
